@@ -131,6 +131,21 @@ fn local_case<B: Backend>(cx: &mut Ctx, rng: &mut Prng, thorough: bool) {
             }
         }
     }
+    // the encoding suffix is part of the authenticated header: the same forward comparison for a payload type that declares "c"
+    if let Some((name, r)) = rnds.first() {
+        let tok = UnsealedToken::<B::V, Local, crate::payload::RawC>::new(crate::payload::RawC(m.clone())).with_footer(f.clone()).dangerous_seal_with_nonce(&key, &i, r.clone());
+        let mut inp = base.clone();
+        inp.insert("rnd".into(), r.clone());
+        match tok {
+            Ok(t) => {
+                let text = t.to_string();
+                let hc = dt::header_c::<B, Local, true>();
+                let p = if text.starts_with(&hc) { dt::split_token(&text, hc.len()).unwrap_or_default().0 } else { Vec::new() };
+                cx.equal("forward", &p, &ev(fam, &c["payload_sfx"], &inp), json!({"nonce": name, "encoding": "c"}));
+            }
+            Err(e) => cx.emit("forward", "equal", false, json!({"nonce": name, "encoding": "c", "real_error": errname(&e)})),
+        }
+    }
     // backward: library randomness, nonce cut out by the spec's layout
     if let Ok(t) = UnsealedToken::<B::V, Local, Raw>::new(Raw(m.clone())).with_footer(f.clone()).seal(&key, &i) {
         let (p, _) = dt::split_token(&t.to_string(), hdr.len()).unwrap_or_default();
@@ -269,6 +284,35 @@ fn public_case<B: Backend>(cx: &mut Ctx, rng: &mut Prng, pairs: &[keys::Pair]) {
             }
         }
         Err(e) => cx.emit("verify", "valid", false, json!({"real_error": errname(&e)})),
+    }
+    // the encoding suffix is part of the signed header
+    {
+        let tbs_c = ev(fam, &c["tbs_sfx"], &inp);
+        let hc = dt::header_c::<B, Public, true>();
+        match (UnsealedToken::<B::V, Public, crate::payload::RawC>::new(crate::payload::RawC(m.clone())).with_footer(f.clone()).seal(&sk, &i), &tbs_c) {
+            (Ok(t), Ok(b)) => {
+                let text = t.to_string();
+                let p = if text.starts_with(&hc) { dt::split_token(&text, hc.len()).unwrap_or_default().0 } else { Vec::new() };
+                let good = p.len() == ml + sl && p[..ml] == m[..] && sig_verify(fam, B::VER, &kp.public, b, &p[ml..]);
+                cx.emit("verify", "valid", good, json!({"encoding": "c"}));
+                // and the independent signer's token for that header is accepted by the parser of that encoding only
+                let sig = sig_sign(fam, B::VER, &kp.secret, b);
+                let mut p2 = m.clone();
+                p2.extend_from_slice(&sig);
+                let body = dt::token_string::<B, Public>(&p2, &f);
+                let text_c = format!("{}{}", hc, &body[hdr.len()..]);
+                let r = catch_unwind(AssertUnwindSafe(|| {
+                    SealedToken::<B::V, Public, crate::payload::RawC, Vec<u8>>::from_str(&text_c).and_then(|t| t.unseal(&pk, &i, &NoValidation::dangerous_no_validation()))
+                }));
+                match r {
+                    Ok(Ok(u)) => cx.emit("reference", "accepted-same", u.claims.0 == m && u.footer == f, json!({"accepted": true, "encoding": "c"})),
+                    Ok(Err(e)) => cx.emit("reference", "accepted-same", false, json!({"accepted": false, "encoding": "c", "real_error": errname(&e)})),
+                    Err(_) => cx.emit("reference", "accepted-same", false, json!({"panic": true, "encoding": "c"})),
+                }
+            }
+            (Err(e), _) => cx.emit("verify", "valid", false, json!({"encoding": "c", "real_error": errname(&e)})),
+            (_, Err(e)) => cx.emit("verify", "valid", false, json!({"encoding": "c", "evaluator_error": e})),
+        }
     }
     // reference: the independent signer signs the spec-computed bytes; the library must accept
     if let Ok(b) = &tbs {
